@@ -48,6 +48,7 @@ PROBES = ["image_size_changed_mid_iteration", "url_404", "url_garbage_body", "ur
           "iterator_abandoned_and_collected", "iterator_closed_early", "iterator_exhausted",
           "fault_in_convert", "fault_in_resize", "fault_in_save", "fault_in_seek",
           "fault_in_open", "caller_pil_image_survives", "animated_draw_keeps_tell",
+          "image_closed_under_live_iterator",
           "frame_equals_direct_format", "seek_then_next", "temp_write_failed"]
 COMPONENTS = {
     "real": ["BaseImage (from_file, from_url, close, _get_image, _close_image, _renderer, "
@@ -185,6 +186,10 @@ def pil_is_open(img):
 
 def fd_count():
     return len(os.listdir("/proc/self/fd"))
+
+
+class _Skip(Exception):
+    """leave the current operation without further checks"""
 
 
 def run(ch, ctx, fault=None):
@@ -368,6 +373,18 @@ def run(ch, ctx, fault=None):
             """one next() on a live iterator, checked against the frame model"""
             im = itd["img"]
             desc = "next(%s)" % itd["desc"]
+            if itd.get("orphan") and not itd["closed"]:
+                # iterator over a finalized image: it may yield, stop or fail - then it is over
+                try:
+                    next(itd["it"])
+                    desc += " -> a frame (image already closed)"
+                except StopIteration:
+                    itd["closed"] = True
+                    desc += " -> StopIteration (image already closed)"
+                except Exception as e:
+                    itd["closed"] = True
+                    desc += " -> %s (image already closed)" % type(e).__name__
+                return desc
             # model: frames 0..n-1 per pass (or the frame chosen by seek)
             if itd["closed"]:
                 want = "stop"
@@ -534,9 +551,20 @@ def run(ch, ctx, fault=None):
                     desc = "%s.seek(%d)" % (d["desc"], pos)
                     d["image"].seek(pos)
                 elif op in ("imgclose", "with"):
-                    if any(it["img"] is d and not it["closed"] for it in iters):
+                    orphans = [it for it in iters if it["img"] is d and not it["closed"]]
+                    if orphans and not ch.bool("close_under_live_iterator", 0.5):
                         continue
                     desc = "%s: %s" % ("with-block exit" if op == "with" else "close()", d["desc"])
+                    if orphans:
+                        # the image is finalized while an iterator over it is still open: what
+                        # that iterator yields from now on is nobody's business, but the file it
+                        # opened must still be released when it is closed / exhausted / dropped,
+                        # and a caller's PIL image must still not be touched
+                        desc += " [%d live iterator(s)]" % len(orphans)
+                        ctx.probe("image_closed_under_live_iterator")
+                        ctx.nontrivial = True
+                        for it in orphans:
+                            it["orphan"] = True
                     if op == "with":
                         with d["image"]:
                             pass
@@ -559,6 +587,12 @@ def run(ch, ctx, fault=None):
                     im = itd["img"]
                     pos = ch.int("spos", -1, im["n"]) if ch.bool("badpos", 0.2) else ch.int("spos", 0, im["n"] - 1)
                     desc = "%s.seek(%d)" % (itd["desc"], pos)
+                    if itd.get("orphan"):
+                        try:        # iterator over a finalized image: nothing is promised
+                            itd["it"].seek(pos)
+                        except Exception:
+                            pass
+                        raise _Skip()
                     try:
                         itd["it"].seek(pos)
                         ok = True
@@ -603,6 +637,8 @@ def run(ch, ctx, fault=None):
                     gc.collect()
             except Violation:
                 raise
+            except _Skip:
+                pass
             except BaseException as e:  # noqa: B902
                 exc = e
             finally:
